@@ -15,7 +15,7 @@ CHECKS = {
          "comms.send_data and comms.callback put on their socket, handed as they are to the real Listener._recv_one (Syn not seen before), are accepted and give back exactly the message / payload "
          "(header and value bytes) - 519 further verification conditions. The orjson/pydantic based encodings (gateway JSON, JobInstance) are outside the verifier: "
          "bounded stand-in only (enumerated instances), never counted as proved.",
-         PYVC_NOTE + "Assumed: int.to_bytes/from_bytes, ascii encode/decode and slice clamping as axiomatised in pyvc/bytesalg.py; pickle round trip (codec_pair); comms.get_socket (opens a socket); "
+         PYVC_NOTE + "Assumed: int.to_bytes/from_bytes, ascii encode/decode and slice clamping as axiomatised in pyvc/bytesalg.py; pickle round trip (codec_pair: holds for classes that do not customise their own pickling - a __reduce__/__getstate__ on a message class is outside what the proof sees; the bounded stand-in round-trips every message class through the real pickle with ids containing every separator character the code uses); comms.get_socket (opens a socket); "
          "cloudpickle/orjson/pydantic round-trip plain data (stand-in only)."),
  "C18": ("proof", "contract-based deductive verification of JobRouter (pre/post, whole-view frames, ownership class invariant with ghost owners) by pyvc + z3",
          "JobRouter.__init__/spawn_job (also: a FAILED spawn leaves every existing job as it was)/maybe_update/put_result/get_result/progress_of (shows exactly the stored progress of exactly the jobs named, all when none; unknown job = KeyError), "
@@ -48,11 +48,11 @@ BOUNDED = {
  "C10": "bounded: real graph2job + execute_sequence + runner.run on enumerated graphs with recorder callables (argument positions, output binding, count mismatch)",
  "C11": "bounded: real graph transforms on all small DAGs with adversarial names, compared through a denotation function",
  "C12": "bounded: real serialise/deserialise/JSON/Cascade file on all small DAGs and fluent programs, compared node by node",
- "C13": "bounded: fluent programs to depth 3 evaluated by a reference interpreter and compared with NumPy",
+ "C13": "bounded: fluent programs to depth 3 evaluated by a reference interpreter and compared with NumPy, a sample of them evaluated a second time after every other program over the same source was built",
  "C14": "bounded: fluent programs and pairs over shared sources; global name table, rebuild determinism, union/lowering checks, operand snapshots",
- "C15": "bounded: every backend operation on arrays / DataArrays / Datasets vs NumPy; batchable partitions for every marked function (markers discovered from the source)",
+ "C15": "bounded: every backend operation on arrays / DataArrays / Datasets vs NumPy (incl. bool and narrow integer operands near the limits of their dtype); batchable partitions for every marked function (markers discovered from the source)",
  "C16": "bounded: real precompute on ALL DAG jobs up to the bound vs an independent networkx reference",
- "C19": "bounded: real TaskBuilder/JobBuilder on enumerated signatures, bound values and edge lists; persistence snapshots",
+ "C19": "bounded: real TaskBuilder/JobBuilder on enumerated signatures, bound values and edge lists, declared types in and out of a subclass relation; persistence snapshots",
 }
 
 # properties decided by the bounded stand-in, with a PART of their chain under discharged contracts (the proved part is named; the level stays "exploration")
